@@ -43,7 +43,8 @@ def sh(cmd: str, **kw) -> subprocess.CompletedProcess:
 
 
 def isolated(cmd: str) -> str:
-    inner = f'ip link set lo up; cd {WT} && PYTHONPATH={WT} {cmd}'
+    site = os.path.join(VERIF, 'tools', 'site4')  # caps Compiler() workers
+    inner = f'ip link set lo up; cd {WT} && PYTHONPATH={WT}:{site} {cmd}'
     return f"unshare -rn sh -c '{inner}'"
 
 
